@@ -139,8 +139,10 @@ func classify(ref *funcRef) string {
 	switch {
 	case name == "processDeferredGroup":
 		return "deferredgroup"
-	case name == "introspectSchema" || name == "introspectType" || name == "__resolve__service":
+	case name == "introspectSchema" || name == "introspectType":
 		return "introspectgate"
+	case name == "__resolve__service":
+		return "servicegate"
 	case name == "__resolve_entities":
 		return "fedentities"
 	case name == "resolveEntityGroup":
@@ -158,6 +160,17 @@ func classify(ref *funcRef) string {
 	}
 	if sig.Recv() != nil && strings.HasSuffix(typeStr(sig.Recv().Type()), "executableSchema") && name == "Schema" {
 		return "schemagetter"
+	}
+	inModelsGen := strings.HasSuffix(ref.pkg.Fset.Position(fd.Pos()).Filename, "models-gen.go") || strings.HasSuffix(ref.pkg.Fset.Position(fd.Pos()).Filename, "models_gen.go")
+	if inModelsGen && sig.Recv() != nil && name == "UnmarshalGQL" && sig.Params().Len() == 1 {
+		if pt, ok := sig.Recv().Type().Underlying().(*types.Pointer); ok {
+			if b, ok := pt.Elem().Underlying().(*types.Basic); ok && b.Info()&types.IsString != 0 {
+				return "enumunmarshal"
+			}
+		}
+	}
+	if inModelsGen && sig.Recv() != nil && name == "IsValid" && sig.Params().Len() == 0 {
+		return "enumisvalid"
 	}
 	if !isEC {
 		return ""
@@ -201,12 +214,15 @@ func extraKinds(ref *funcRef, kind string) []string {
 		if strings.HasSuffix(name, "ᚄ") {
 			out = append(out, "listnn")
 		}
+		if bodyMentions(ref.fd, "semaphore", "NewWeighted") {
+			out = append(out, "listwl")
+		}
 	case "object":
 		if name == "_Mutation" {
 			out = append(out, "mutationroot")
 		}
 	}
-	if kind != "introspectgate" {
+	if kind != "introspectgate" && kind != "servicegate" {
 		out = append(out, "nogatebypass")
 	}
 	return out
@@ -348,7 +364,19 @@ func (s *Session) familyUnitsImpl(id string, probes []ProbeResult, re *regexp.Re
 		u.Obls = keep
 		units = append(units, u)
 		// closure members (inner functions the object executor hands to the scheduler)
-		if sub := byKind[in.kind+"$closure"]; sub != nil && sub.hasProp(id) {
+		sub := byKind[in.kind+"$closure"]
+		if sub != nil {
+			var extraSub []*Contract
+			for _, ek := range extraKinds(in.ref, in.kind) {
+				if ec := byKind[ek+"$closure"]; ec != nil {
+					extraSub = append(extraSub, ec)
+				}
+			}
+			if len(extraSub) > 0 {
+				sub = mergeContracts(sub, extraSub)
+			}
+		}
+		if sub != nil && sub.hasProp(id) {
 			n := 0
 			ast.Inspect(in.ref.fd.Body, func(x ast.Node) bool {
 				if _, ok := x.(*ast.FuncLit); ok {
